@@ -104,6 +104,21 @@ twaiter local.o local.t:
  local.o waittill_timeout local.t "sig"
  println "tw2"
 end
+runaway:
+ thread runaway
+end
+runaway2 local.n:
+ local.r = waitthread runaway2 (local.n + 1)
+end local.r
+runawayo:
+ self thread runawayo
+end
+later local.k local.how:
+ wait (local.k * 0.02)
+ println "go"
+ switch (local.how) { case 1: local.r = waitthread runaway2 0; break; case 2: level.e thread runawayo; break; default: thread runaway; break }
+ println "never"
+end
 """
 
 
@@ -230,6 +245,11 @@ class Gen:
             return self.delayed_stmt()
         if x < 0.96:
             return self.list_stmt()
+        if x >= 0.985:
+            # unbounded recursion (nesting deeper than the limit), now or from a later frame
+            self.count("runaway")
+            return r.choice(["thread runaway", "local.r = waitthread runaway2 0", "%s thread runawayo" % r.choice(["level.e", "level.s", "local", "self"]),
+                             "thread later %d %d" % (r.randint(1, 6), r.randint(0, 2)), "thread later %d %d" % (r.randint(1, 6), r.randint(0, 2))])
         self.count("spawn")
         return r.choice(['local.r = spawn %s' % self.value(1), 'local.r = spawn Listener "targetname" "tb"', 'local.r = spawn SimpleEntity "origin" %s' % self.value(1),
                          'local.r = spawn Nope', 'level.e = spawn Listener', 'local.r = local CreateListener'])
@@ -368,12 +388,26 @@ TARGETED = [
     ("recv-list-group-then-string", '(group::"abc") delete\n println "zombie"'),
     ("recv-list-local-then-float", '(local::level.e::1.5) remove\n println "zombie"'),
     ("recv-list-variable", 'local.lst = group::level.arr\n local.lst immediateremove\n println "zombie"'),
+    # unbounded recursion: thread nesting deeper than the limit is refused with MaxStackDepth (an abort: it ends the
+    # whole chain of nested threads and leaves the host call).  The bystander — asleep in `wait` at that moment —
+    # must still be resumed by later frames and the sentinel must still run and be scheduled: once, twice, 25 times
+    # (seeded C04-ind-8: the refused frame stays counted, ExecuteRunning never resumes anything again)
+    ("runaway-thread", 'thread runaway\n println "zombie"'),
+    ("runaway-waitthread", 'local.r = waitthread runaway2 0\n println "zombie"'),
+    ("runaway-object-thread", 'level.e thread runawayo\n println "zombie"'),
+    ("runaway-later", 'thread later 1 0\n println "started"'),
+    ("runaway-later-x2", 'thread later 1 1\n thread later 2 2\n println "started"'),
+    ("runaway-now-and-later", 'thread later 1 0\n thread later 3 1\n thread runaway\n println "zombie"'),
+    ("runaway-later-x25", 'for (local.i = 1; local.i <= 25; local.i++) { thread later local.i (local.i % 3) }\n println "started"'),
     ("recv-list-nonlistener-first", '(5::level.e) remove\n println "next"\n (level.e2::NIL::level.s) notify "sig"\n (NULL::5) remove\n (level.dead::level.e2) println "x"'),
 ]
 
 NOT_TRANSPARENT = {"self-remove", "self-delete", "waiter-removed", "unknown-label", "setter-throws", "delayed-fresh-listener", "delayed-waiter-removed",
                    "delayed-waiter-any", "delayed-on-ending-thread", "delayed-entity-removed", "delayed-timer-removed", "recv-list-group-alias-then-int",
-                   "recv-list-group-then-string", "recv-list-local-then-float", "recv-list-variable"}
+                   "recv-list-group-then-string", "recv-list-local-then-float", "recv-list-variable",
+                   "runaway-thread", "runaway-waitthread", "runaway-object-thread", "runaway-now-and-later"}
+# host frames pumped after the start (default 12): each refused nesting aborts the frame that ran it
+TARGET_FRAMES = {"runaway-later-x25": 40}
 
 TARGET_EXTRA = """settest:
  println "st0"
@@ -387,4 +421,4 @@ end
 
 def targeted_program(name, body):
     src = "main:\n" + SETUP + " thread t0\n println \"done\"\nend\nt0:\n println \"m0.0\"\n " + body + "\n println \"m0.1\"\nend\n" + HELPERS + TARGET_EXTRA
-    return {"src": src, "threads": [[name not in NOT_TRANSPARENT]], "name": name}
+    return {"src": src, "threads": [[name not in NOT_TRANSPARENT]], "name": name, "frames": TARGET_FRAMES.get(name)}
